@@ -12,47 +12,57 @@ CONSTANTS SkelSel,     \* skeleton names to use
           FirstKinds,  \* trivia kinds offered to the first placement
           MoreKinds,   \* trivia kinds offered to later placements
           Sim,         \* TRUE: one random successor per step
-          WithItems    \* TRUE: every exported layout carries Items (the text, for cross-checking the driver's renderer)
-VARIABLES sk, pl, sc   \* skeleton, placements, scope of every gap of sk (constant along a behaviour)
-vars == <<sk, pl, sc>>
+          WithItems,   \* TRUE: every exported layout carries Items (the text, for cross-checking the driver's renderer)
+          WithSkel     \* TRUE: the default-layout state of a skeleton exports the skeleton record
+VARIABLES sk, pl, tk, sc   \* skeleton name, placements; its token sequence and the scope of every gap (both constant
+                       \* along a behaviour, kept in the state so that TLC computes them once per skeleton)
+vars == <<sk, pl, tk, sc>>
 
-ASSUME \A s \in SkelNames : Balanced(s) /\ IsLayout(s, {})
+ASSUME \A s \in SkelNames : Balanced(Skel[s]) /\ IsLayout(Skel[s], {})
 ASSUME SkelSel \subseteq SkelNames
 
-Init == sk \in SkelSel /\ pl = {} /\ sc = ScopeSeq(sk)
+Init == sk \in SkelSel /\ pl = {} /\ tk = Skel[sk] /\ sc = ScopeSeq(tk)
 
-ClassV(g) == (IF g = 0 THEN "file" ELSE sc[g]) \o ":" \o TokName(sk, g) \o "|" \o TokName(sk, g + 1)
-FeaturesV == {ClassV(p[1]) \o "=" \o p[2] : p \in pl}
+ClassV(g) == (IF g = 0 THEN "file" ELSE sc[g]) \o ":" \o TokName(tk, g) \o "|" \o TokName(tk, g + 1)
+ScV(g) == IF g = 0 THEN "file" ELSE sc[g]
+ZoneV(g) == ZoneOf(tk, g, ScV(g), IF g > 0 THEN ScV(g - 1) ELSE "file")
+FeatureV(p) == KindCat(p[2]) \o "@" \o ZoneV(p[1]) \o "(" \o ClassV(p[1]) \o ")=" \o p[2]
+FeaturesV == {FeatureV(p) : p \in pl}
 
 Offered == IF pl = {} THEN FirstKinds ELSE MoreKinds
 Free(g) == \A p \in pl : p[1] # g
 Near(g) == Dist = 0 \/ pl = {} \/ \E p \in pl : (IF p[1] > g THEN p[1] - g ELSE g - p[1]) <= Dist
-Choices == {c \in Gaps(sk) \X Offered : Free(c[1]) /\ Near(c[1]) /\ Admissible(sk, c[1], c[2])}
+Choices == {c \in Gaps(tk) \X Offered : Free(c[1]) /\ Near(c[1]) /\ Admissible(tk, c[1], c[2])}
 
 Next == /\ Cardinality(pl) < MaxPlace
         /\ IF Sim
-             THEN LET free == {g \in Gaps(sk) : Free(g) /\ Near(g)}
+             THEN LET free == {g \in Gaps(tk) : Free(g) /\ Near(g)}
                   IN /\ free # {}
                      /\ \E g \in {RandomElement(free)} :
-                          LET ks == {k \in Offered : Admissible(sk, g, k)}
+                          LET ks == {k \in Offered : Admissible(tk, g, k)}
                           IN ks # {} /\ \E k \in {RandomElement(ks)} : pl' = pl \cup {<<g, k>>}
              ELSE \E c \in Choices : pl' = pl \cup {c}
-        /\ UNCHANGED <<sk, sc>>
+        /\ UNCHANGED <<sk, tk, sc>>
 Spec == Init /\ [][Next]_vars
 
-N == NTok(sk)
+N == NTok(tk)
 SkelRec == [t |-> "skel", skel |-> sk,
-            toks |-> [i \in 1..N |-> TokText(sk, i)],
-            defaults |-> [i \in 1..(N + 1) |-> DefaultKind(sk, i - 1)],      \* index g+1
+            toks |-> [i \in 1..N |-> TokText(tk, i)],
+            defaults |-> [i \in 1..(N + 1) |-> DefaultKind(tk, i - 1)],      \* index g+1
             classes |-> [i \in 1..(N + 1) |-> ClassV(i - 1)],                \* index g+1
-            items |-> Items(sk, {}),
+            zones |-> [i \in 1..(N + 1) |-> ZoneV(i - 1)],                  \* index g+1
+            cats |-> [k \in Kinds |-> KindCat(k)],
+            items |-> Items(tk, {}),
             kinds |-> SkelKinds[sk], deps |-> SkelDeps[sk],
             trivia |-> TriviaText, aux |-> AuxFiles]
 LayRec == IF WithItems
-            THEN [t |-> "lay", skel |-> sk, pl |-> pl, feat |-> FeaturesV, items |-> Items(sk, pl)]
+            THEN [t |-> "lay", skel |-> sk, pl |-> pl, feat |-> FeaturesV, items |-> Items(tk, pl)]
             ELSE [t |-> "lay", skel |-> sk, pl |-> pl, feat |-> FeaturesV]
-Export == /\ pl = {} => PrintT("CASE " \o ToJson(SkelRec))
-          /\ (Cardinality(pl) >= ExportMin /\ IsLayout(sk, pl)) => PrintT("CASE " \o ToJson(LayRec))
-(* the state variable sc really is PrintLayout!ScopeSeq, so ClassV(g) = Class(sk, g) *)
-ScopeOK == sc = ScopeSeq(sk) => \A p \in pl : ClassV(p[1]) = Class(sk, p[1])
+Export == /\ (pl = {} /\ WithSkel) => PrintT("CASE " \o ToJson(SkelRec))
+          /\ (Cardinality(pl) >= ExportMin /\ IsLayout(tk, pl)) => PrintT("CASE " \o ToJson(LayRec))
+(* the state variables tk / sc really are the skeleton and PrintLayout!ScopeSeq of it, so ClassV = Class and ZoneV = Zone
+   (spot-checked at both ends and in the middle of every skeleton; the full recomputation per state is what tk / sc avoid) *)
+ScopeOK == (pl = {} /\ WithSkel) =>
+             /\ tk = Skel[sk] /\ sc = ScopeSeq(tk)
+             /\ \A g \in {0, 1, N \div 2, N - 1, N} : ClassV(g) = Class(tk, g) /\ ZoneV(g) = Zone(tk, g)
 =============================================================================
